@@ -389,7 +389,10 @@ func (s *Store) deleteSessionTxn(tx WriteTxn, idx uint64, sessionID string, entM
 
 			// Apply the lock delay if present.
 			if delay > 0 {
-				s.lockDelay.SetExpiration(e.Key, now, delay, entMeta)
+				// Only arm the lock-delay once the transaction commits: an
+				// aborted transaction must not leave a delay behind.
+				key := e.Key
+				tx.Defer(func() { s.lockDelay.SetExpiration(key, now, delay, entMeta) })
 			}
 		}
 	case structs.SessionKeysDelete:
@@ -401,7 +404,10 @@ func (s *Store) deleteSessionTxn(tx WriteTxn, idx uint64, sessionID string, entM
 
 			// Apply the lock delay if present.
 			if delay > 0 {
-				s.lockDelay.SetExpiration(e.Key, now, delay, entMeta)
+				// Only arm the lock-delay once the transaction commits: an
+				// aborted transaction must not leave a delay behind.
+				key := e.Key
+				tx.Defer(func() { s.lockDelay.SetExpiration(key, now, delay, entMeta) })
 			}
 		}
 	default:
